@@ -323,7 +323,7 @@ def check_e2e(sel, xs, ys, p0, ov_kind, rec=None):
 def e2e_strategy():
     from hypothesis import strategies as st
 
-    small = st.integers(-3, 6)
+    small = st.one_of(st.integers(-3, 6), st.integers(-3, 6), st.integers(-3, 6), st.sampled_from([300, 1000]))
 
     def lit():
         return st.one_of(small.map(lambda i: ("sym", str(i))), st.sampled_from(list(CONSTS)).map(lambda n: ("sym", n)))
@@ -412,7 +412,7 @@ def e2e_strategy():
             caps.append(G.Cap(fv, None, None, ("call", "throttle", (("sym", str(k)),)), "~", 1))
         return G.CallN("li", None, tuple(caps), ())
 
-    ints = st.lists(st.integers(-3, 6), min_size=0, max_size=5)
+    ints = st.lists(small, min_size=0, max_size=5)
     sorted_ints = ints.map(sorted)
     return st.one_of(
         st.tuples(sel(), ints, ints, small, st.sampled_from([None, "const", "fn"])),
